@@ -1,0 +1,11 @@
+//go:build verif
+
+package verifapi
+
+import "github.com/tidwall/tile38/internal/server"
+
+// MvtFilterHTTPArgs runs the HTTP tile-path rewrite (mvtFilterHTTPArgs) on a
+// path; a run-time panic is caught and reported.
+func MvtFilterHTTPArgs(path, query string) (modified bool, args []string, panicked string) {
+	return server.VerifMvtFilterHTTPArgs(path, query)
+}
